@@ -5,6 +5,7 @@
 use crate::bridge::*;
 use crate::dev::Dev;
 use crate::engine::*;
+use crate::iterprog::{self, Prog, PROGS};
 use crate::model::*;
 use crate::refmodel::codec::{self, MBody, MFile, MRecord};
 use crate::with_ty;
@@ -21,6 +22,15 @@ pub struct Case {
 fn body_json(b: &MBody) -> Value {
     match b {
         MBody::Null => json!("null"),
+        // very large generated shapes are named, not spelled out
+        MBody::Shape { shape, bbox, with_m } if shape.parts.iter().map(|p| p.pts.len()).sum::<usize>() > 20_000 && {
+            let n = shape.parts.last().map(|p| p.pts.len()).unwrap_or(0);
+            let s = crate::structs::sized(shape.ty, n);
+            let (mut a, mut b) = (Fnv::new(), Fnv::new());
+            s.hash_into(&mut a);
+            shape.hash_into(&mut b);
+            a.finish() == b.finish() && codec::true_bbox(&s).map(|f| f.to_bits()) == bbox.map(|f| f.to_bits())
+        } => json!({"sized": shape.parts.last().map(|p| p.pts.len()).unwrap_or(0), "ty": shape.ty.name(), "with_m": with_m}),
         MBody::Shape { shape, bbox, with_m } => json!({
             "shape": shape.to_json(), "with_m": with_m,
             "bbox": bbox.iter().map(|f| fjson(*f)).collect::<Vec<_>>() }),
@@ -29,6 +39,11 @@ fn body_json(b: &MBody) -> Value {
 fn body_from(v: &Value) -> Option<MBody> {
     if v.as_str() == Some("null") {
         return Some(MBody::Null);
+    }
+    if let Some(n) = v.get("sized").and_then(|x| x.as_u64()) {
+        let shape = crate::structs::sized(Ty::from_name(v.get("ty")?.as_str()?)?, n as usize);
+        let bbox = codec::true_bbox(&shape);
+        return Some(MBody::Shape { shape, bbox, with_m: v.get("with_m")?.as_bool()? });
     }
     let mut bbox = [0.0; 8];
     for (i, x) in v.get("bbox")?.as_array()?.iter().enumerate() {
@@ -85,6 +100,8 @@ pub struct Obs {
     /// read_as::<T>() when the file has no null record (and is not a null file)
     pub typed: Option<Result<Vec<MRead>, String>>,
     pub header_ty: Result<Ty, String>,
+    /// files of 3 records: the iterator driven through std adaptors (reader state 0 fresh / 1 after one next(), program, answers)
+    pub progs: Vec<(u8, Prog, iterprog::Out<Result<MRead, String>>)>,
 }
 
 pub fn observe(case: &Case, bytes: &[u8]) -> Obs {
@@ -129,7 +146,21 @@ pub fn observe_chunked(case: &Case, bytes: &[u8], chunk: usize) -> Obs {
     } else {
         None
     };
-    Obs { read, iter, typed, header_ty }
+    let mut progs = vec![];
+    if n == 3 && bytes.len() < 100_000 {
+        for pre in 0..2u8 {
+            for p in PROGS {
+                if let Ok(mut r) = ShapeReader::new(dev(bytes.to_vec())) {
+                    if pre == 1 && r.iter_shapes().next().is_none() {
+                        continue;
+                    }
+                    let o = iterprog::run(r.iter_shapes(), p, n + 3);
+                    progs.push((pre, p, iterprog::Out { answers: o.answers.into_iter().map(|a| a.map(|x| x.map(|s| from_lib(&s)).map_err(|e| err_kind(&e)))).collect(), count: o.count }));
+                }
+            }
+        }
+    }
+    Obs { read, iter, typed, header_ty, progs }
 }
 
 /// What the statement demands for one record.
@@ -264,6 +295,31 @@ pub fn judge(case: &Case, o: &Obs) -> Vec<(String, String)> {
     }
     if o.header_ty != Ok(case.file.ty) {
         out.push((format!("{}:header-type", tn), format!("{:?}", o.header_ty)));
+    }
+    for (pre, p, got) in &o.progs {
+        let (want, _) = iterprog::reference(*pre as usize, recs.len(), *p, recs.len() + 3);
+        let same = want.count == got.count
+            && want.answers.len() == got.answers.len()
+            && want.answers.iter().zip(&got.answers).all(|(w, g)| match (w, g) {
+                (None, None) => true,
+                (Some(k), Some(Ok(s))) => cmp_record(&recs[*k], s).is_none(),
+                _ => false,
+            });
+        if !same {
+            let shown: Vec<String> = got.answers.iter().map(|x| match x {
+                None => "None".to_string(),
+                Some(Err(e)) => format!("Err({})", e),
+                Some(Ok(s)) => match recs.iter().position(|r| cmp_record(r, s).is_none()) {
+                    Some(k) => format!("record {}", k),
+                    None => "a shape the file does not encode".into(),
+                },
+            }).collect();
+            out.push((
+                format!("{}:adaptor-iteration[{}]", tn, lc),
+                format!("{} {}: returned {:?} count {:?}; the {} records give {:?} count {:?}", p.name(), ["on a fresh reader", "after one next()"][*pre as usize], shown, got.count, recs.len(), want.answers, want.count),
+            ));
+            break;
+        }
     }
     out
 }
@@ -435,6 +491,8 @@ enum UKind {
     Ladder { idx: usize },
     /// every part length in [lo, hi), with and without the M block
     Sizes { lo: usize, hi: usize },
+    /// one record of more than 10 MiB (a part of n points): alone, last of two, followed by a null record
+    Huge { n: usize },
 }
 
 fn run_case(case: &Case, ctx: &mut Ctx) {
@@ -532,6 +590,18 @@ fn enumerate(u: &Unit, tier: Tier, ctx: &mut Ctx, tick: &dyn Fn()) {
                 }
                 tick();
             }
+        }
+        UKind::Huge { n } => {
+            let s = crate::structs::sized(ty, *n);
+            let red = reduced_variants(ty);
+            let bbox = codec::true_bbox(&s);
+            let body = MBody::Shape { shape: s, bbox, with_m: true };
+            run_case(&Case { file: file_of(ty, vec![body.clone()], &[1], vec![]), ndev: 0 }, ctx);
+            tick();
+            run_case(&Case { file: file_of(ty, vec![red[1 % red.len()].clone(), body.clone()], &[1, 2], vec![]), ndev: 0 }, ctx);
+            tick();
+            run_case(&Case { file: file_of(ty, vec![body, MBody::Null], &[1, 2], vec![0xAB; 13]), ndev: 0 }, ctx);
+            tick();
         }
         UKind::Ladder { idx } => {
             let big = crate::structs::ladder(ty)[*idx].clone();
@@ -686,6 +756,12 @@ pub fn check(tier: Tier) -> i32 {
                 lo = hi;
             }
         }
+        if ty == Ty::Polyline || (tier == Tier::Thorough && matches!(ty, Ty::MultipointZ | Ty::PolygonM | Ty::Multipatch)) {
+            units.push(Unit { ty, kind: UKind::Huge { n: 700_001 } });
+            if tier == Tier::Thorough {
+                units.push(Unit { ty, kind: UKind::Huge { n: 1_400_001 } });
+            }
+        }
         for idx in 1..reduced_variants(ty).len() {
             units.push(Unit { ty, kind: UKind::Devs { idx, dmax: 1 } });
             if tier == Tier::Thorough && idx <= 2 {
@@ -703,7 +779,7 @@ pub fn check(tier: Tier) -> i32 {
             tier,
             level: "model_checking",
             engine: "E2 enumerator over files produced by the independent RefCodec encoder, decoded by the real ShapeReader (read, iter_shapes, read_as)",
-            rule: "14 file types x {n=0; n=1 over every record variant (part structures with 0-3 parts of 0-3 vertices incl. empty first parts and zero parts, M block present/absent, PointZ 24/32 bytes, 4 stored-box variants, null record) x 5 numbering variants x 4 trailing variants; n=2,3 all ordered tuples over 6 representative variants x numbering x trailing; deviation sets of size <= d over every coordinate and stored-box field from the full float alphabet (NaNs included); EVERY part length from 2 to the size bound for one type per family (with and without the M block); every file of >= 2 records again through sources returning at most 1 resp. 5 bytes per read}; distinct = hash of the file bytes; non-trivial = foreign layout feature, deviation or >= 2 records",
+            rule: "14 file types x {n=0; n=1 over every record variant (part structures with 0-3 parts of 0-3 vertices incl. empty first parts and zero parts, M block present/absent, PointZ 24/32 bytes, 4 stored-box variants, null record) x 5 numbering variants x 4 trailing variants; n=2,3 all ordered tuples over 6 representative variants x numbering x trailing; deviation sets of size <= d over every coordinate and stored-box field from the full float alphabet (NaNs included); EVERY part length from 2 to the size bound for one type per family (with and without the M block); every file of >= 2 records again through sources returning at most 1 resp. 5 bytes per read, and (files of 3 records) with the iterator driven through 14 programs of std adaptors (nth, skip, step_by, last, count) fresh and after one next(); records of more than 10 MiB (a part of 700001 points; thorough also 1400001 and three more types) alone, last of two, and followed by a null record}; distinct = hash of the file bytes; non-trivial = foreign layout feature, deviation or >= 2 records",
             bounds: json!({"max_parts": 3, "max_part_len": 3, "max_records": 4, "deviation_bound": tier.pick(1, 2), "alphabet": f_m().len()}),
             exhaustive: true,
             assumptions: vec!["ring roles and the M range of a box whose M block is absent are not in the statement and are not compared".into()],
